@@ -209,3 +209,4 @@ def run(ctx):
         from .. import replay
         return replay.run_native('c12.py', {'obligation': ob.name}, timeout=300)
     ctx.replayers['*'] = replayer
+    ctx.native_crosschecks.append(('c12.py', {'obligation': ''}, 'malformed PDUs and fragments on the real provider'))
